@@ -253,6 +253,44 @@ func parseFunc(op, lt, rt string, fl *ast.FuncLit, ret string) entry {
 	return e
 }
 
+// builtinNames lists the string keys of every assignment `statelessFuncs[<key>] = …` / `funcs[<key>] = …` in
+// functions.go. A key that is not a string literal is emitted as "<non-literal: …>", which no classification
+// list contains (fail closed).
+func builtinNames(path string) []string {
+	f, err := parser.ParseFile(fset, path, nil, 0)
+	if err != nil {
+		fmt.Fprintln(os.Stderr, "evaltable:", err)
+		os.Exit(1)
+	}
+	var names []string
+	ast.Inspect(f, func(n ast.Node) bool {
+		as, ok := n.(*ast.AssignStmt)
+		if !ok || len(as.Lhs) != 1 {
+			return true
+		}
+		ix, ok := as.Lhs[0].(*ast.IndexExpr)
+		if !ok {
+			return true
+		}
+		m, ok := ix.X.(*ast.Ident)
+		if !ok || (m.Name != "statelessFuncs" && m.Name != "funcs") {
+			return true
+		}
+		if lit, ok := ix.Index.(*ast.BasicLit); ok && lit.Kind == token.STRING {
+			names = append(names, strings.Trim(lit.Value, "\"`"))
+		} else if id, ok := ix.Index.(*ast.Ident); ok && m.Name == "funcs" && id.Name == "n" {
+			// `for n, f := range statelessFuncs { funcs[n] = f }`: the copy loop of NewFunctions, no new name
+		} else {
+			names = append(names, "<non-literal: "+src(ix.Index)+">")
+		}
+		return true
+	})
+	if len(names) == 0 {
+		names = append(names, "<no builtin registrations found>")
+	}
+	return names
+}
+
 func main() {
 	repo := os.Getenv("VERIF_REPO")
 	if repo == "" {
@@ -345,8 +383,10 @@ func main() {
 		entries = append(entries, parseFunc(op, lt, rt, fl, ret))
 	}
 
+	names := builtinNames(filepath.Join(repo, "tick/stateful/functions.go"))
+
 	var b strings.Builder
-	b.WriteString("-- GENERATED by /verif/extract/evaltable from tick/stateful/evaluation_funcs.go — do not edit.\n")
+	b.WriteString("-- GENERATED by /verif/extract/evaltable from tick/stateful/evaluation_funcs.go and functions.go — do not edit.\n")
 	b.WriteString("import Kap.Model.C04Base\nnamespace Kap.C04.Gen\nopen Kap.C04\n\n")
 	fmt.Fprintf(&b, "/-- the `evaluationFuncs` map, %d keys, in source order -/\ndef table : List Entry := [\n", len(entries))
 	for i, e := range entries {
@@ -356,6 +396,14 @@ func main() {
 		}
 		fmt.Fprintf(&b, "  { op := %s, lt := %s, rt := %s, lm := %s, rm := %s, shape := %s, zeroGuard := %v, res := %s, rexp := %s, ret := %s }%s\n",
 			e.op, e.lt, e.rt, e.lm, e.rm, e.shape, e.zero, e.res, e.rexp, e.ret, sep)
+	}
+	b.WriteString("]\n\n")
+	fmt.Fprintf(&b, "/-- every name registered in `statelessFuncs[...]` / `funcs[...]` of functions.go, %d names, in source order -/\ndef builtinNames : List String := [", len(names))
+	for i, n := range names {
+		if i > 0 {
+			b.WriteString(", ")
+		}
+		b.WriteString(leanStr(n))
 	}
 	b.WriteString("]\n\nend Kap.C04.Gen\n")
 	out := filepath.Join(lean, "Kap/Gen/C04.lean")
